@@ -55,6 +55,10 @@ def head_mutations(rng):
             ("status-code-plus", rep(b" 101 ", b" +101 ")),
             ("status-code-5000-digits", rep(b" 101 ", b" " + b"1" * 5000 + b" ")),
             ("status-code-4301-digits", rep(b" 101 ", b" " + b"7" * 4301 + b" ")),
+            # very many interim responses in front of the final one (each valid by itself)
+            ("interim-100-x1200", (b"HTTP/1.1 100 Continue\r\n\r\n" * 1200) + VALID_HEAD),
+            ("interim-103-x3000", (b"HTTP/1.1 103 Early Hints\r\nLink: </x>; rel=preload\r\n\r\n" * 3000) + VALID_HEAD),
+            ("interim-102-x5000-then-eof", b"HTTP/1.1 102 Processing\r\n\r\n" * 5000),
             ("status-line-tabs", rep(b"HTTP/1.1 101 Switching", b"HTTP/1.1\t101\tSwitching")),
             ("no-reason", rep(b" 101 Switching Protocols", b" 101")),
             ("only-crlf", b"\r\n"), ("only-lf", b"\n"), ("empty", b""), ("double-crlf-first", b"\r\n\r\n" + T),
